@@ -444,6 +444,7 @@ func closedCheckedUnderLock(u *Unit, fn *ssa.Function, at ssa.Instruction) bool 
 
 func runC35(c *Ctx) {
 	u, r := c.U, c.R
+	seedfixC35(c)
 	G := func(in ssa.Instruction) string { return strings.Join(u.GuardStrings(in), " && ") }
 	// R-DISCRIMINATOR
 	if aw := c.Fn("R-DISCRIMINATOR", "(*ShmSegment).AllocateAndWrite"); aw != nil {
